@@ -182,6 +182,12 @@ func (c *controller) waitQuiescent() bool {
 			return true
 		}
 		if time.Now().After(deadline) {
+			if os.Getenv("VERIF_DUMP") != "" {
+				fmt.Fprintln(os.Stderr, "not quiescent after 3s:", c.lastSnap)
+				buf := make([]byte, 1<<18)
+				n := runtime.Stack(buf, true)
+				os.Stderr.Write(buf[:n])
+			}
 			return false
 		}
 		runtime.Gosched()
@@ -242,12 +248,20 @@ func (c *controller) run(pick func(parked []who) who, maxSteps int) {
 		k := pick(keys)
 		a := c.parked[k]
 		delete(c.parked, k)
-		c.sched = append(c.sched, C("Resume", k.term()))
 		close(a.resume)
 		if !c.waitQuiescent() {
 			c.stuck = true
 			return
 		}
+		c.mu.Lock()
+		again := false
+		for _, q := range c.queue {
+			if q.key == k {
+				again = true
+			}
+		}
+		c.mu.Unlock()
+		c.sched = append(c.sched, C("Resume", k.term(), B(again)))
 		c.drain(&k)
 	}
 	c.stuck = true
